@@ -304,7 +304,7 @@ def main(argv=None):
                     log.append({"step": "leanchecker", "module": m, "rc": rc2, "s": round(dt2, 1)})
                     if rc2 != 0:
                         problems.append({"kind": "leanchecker", "what": "leanchecker rejected " + m, "detail": out2[-2000:]})
-        src_dirs = [os.path.join(LEAN_DIR, "JunoModel", pid), os.path.join(LEAN_DIR, "JunoModel", "Common")]
+        src_dirs = [os.path.join(LEAN_DIR, "JunoModel", d) for d in (pid, "Common", "Tie", "Generated")]
         hits = forbidden_tokens(src_dirs)
         for h in hits:
             problems.append({"kind": "forbidden-token", "what": h})
